@@ -98,6 +98,8 @@ func c19Scope(pk string) bool {
 // c19Infeasible: (family|method|param) pairs where the receiver and the operand cannot be the
 // same object, with the reason (confirmed by reading).
 var c19Infeasible = map[string]string{
+	"ecc/*/fr/polynomial|(*Polynomial).Add|0": "the only read that follows a write of the receiver is bigger[len(smaller):] in the branch taken when p is `smaller` (identity of the first element); if p is also `bigger` both have the same length and that tail is empty, otherwise `bigger` is the other operand",
+	"ecc/*/fr/polynomial|(*Polynomial).Add|1": "same as parameter 0 (the two operands are swapped into bigger/smaller)",
 	"ecc/*/fr/polynomial|(*MultiLin).Eq|0": "the receiver must hold 2^len(q) entries (guarded by a panic) while q holds len(q): n = 2^n has no solution, so the two slices are never the same object",
 }
 
